@@ -54,22 +54,24 @@ FAMILIES = {
     },
     'DecorAttr': {
         'quick':    dict(consts=dict(N=3, MaxKids=2, MinHi=1, Axes={'attr'}, AttrNames=['a1'],
-                                     AttrVals=[{'val': 'i:7', 'dom': '', 'nul': 'n'}]), invariants=tlc.GEN_INVARIANTS),
+                                     AttrVals=[{'val': 'i:7', 'dom': '', 'nul': 'n'}, {'val': 'n', 'dom': '', 'nul': 'n'}]),
+                         invariants=tlc.GEN_INVARIANTS),
         'thorough': dict(consts=dict(N=3, MaxKids=2, MinHi=1, Axes={'attr'}, AttrNames=['a1'],
-                                     AttrVals=[{'val': 'i:7', 'dom': '', 'nul': 'n'}]), invariants=tlc.GEN_INVARIANTS),
+                                     AttrVals=[{'val': 'i:7', 'dom': '', 'nul': 'n'}, {'val': 'n', 'dom': '', 'nul': 'n'}]),
+                         invariants=tlc.GEN_INVARIANTS),
     },
     # histories: operation kind x sequences of pool models on one object; GenAttr parameter space
     'Hist': {
         'quick':    dict(module='FMHist', defaults=False, invariants=['TypeOK'],
                          consts=dict(Ops={'estimate', 'core', 'atomic', 'leaves', 'count_leaves', 'depth', 'abf',
                                           'ancestors', 'varpoints', 'metrics'},
-                                     PoolSize=6, MaxLen=2,
+                                     PoolSize=7, MaxLen=2,
                                      DomShapes={'elements', 'intrange', 'floatrange', 'tworanges', 'mixture', 'mixedfloat', 'unset'},
                                      Seeds={0, 1})),
         'thorough': dict(module='FMHist', defaults=False, invariants=['TypeOK'],
                          consts=dict(Ops={'estimate', 'core', 'atomic', 'leaves', 'count_leaves', 'depth', 'abf',
                                           'ancestors', 'varpoints', 'metrics'},
-                                     PoolSize=6, MaxLen=3,
+                                     PoolSize=7, MaxLen=3,
                                      DomShapes={'elements', 'intrange', 'floatrange', 'tworanges', 'mixture', 'mixedfloat', 'unset'},
                                      Seeds={0, 1, 2, 3, 4, 5, 6, 7})),
     },
@@ -84,6 +86,11 @@ FAMILIES = {
                                      Strategies={'revkids', 'rotkids', 'revrels', 'revctcs', 'revall'}),
                          invariants=['InvWellFormed', 'L11_Eq']),
     },
+    'Eq3': {   # three single-feature constraints: repeated constraints, edits that make one equal to another
+        t: dict(module='FMEqGen', spec='ESpec', emit='EEmit', emit_all=False,
+                consts=dict(N=2, MaxKids=1, MinHi=1, Axes={'ctc'}, MaxCtc=3, CtcDepth=0, CtcBinOps=set(), CtcMinFeatures=2,
+                            Strategies={'revctcs'}),
+                invariants=['InvWellFormed', 'L11_Eq']) for t in ('quick', 'thorough')},
     'Eq2': {   # two constraints, so that constraint order matters
         'quick':    dict(module='FMEqGen', spec='ESpec', emit='EEmit', emit_all=False,
                          consts=dict(N=2, MaxKids=1, MinHi=1, Axes={'ctc'}, MaxCtc=2, CtcDepth=1, CtcBinOps={'OR', 'EXCLUDES'},
@@ -98,7 +105,8 @@ FAMILIES = {
 
 
 ATTR_VALS_JSON = [{'val': v, 'dom': '', 'nul': 'n'} for v in
-                  ['n', 'b:true', 'b:false', 'i:5', 'i:0', 'd:1.5', 's:txt', 's:two words', 'l:[i:1,s:x]', 'm:{s:k=i:1}']]
+                  ['n', 'b:true', 'b:false', 'i:5', 'i:0', 'd:1.5', 's:txt', 's:two words', 's:true', 's:False', 's:5', 'l:[i:1,s:x]',
+                   'm:{s:k=i:1}']]
 ALL_OPS_NOT_XOR = LOGIC_BIN - {'XOR'}
 
 
@@ -157,8 +165,8 @@ ATTR_VALS_AFM = [{'val': 's:3', 'dom': 'R:i:1..i:5|E:', 'nul': 's:0'},
                  {'val': 's:1', 'dom': 'R:|E:s:1,s:2', 'nul': 's:2'}]
 FAMILIES.update(fmt_families('afm', ALL_OPS_NOT_XOR, ATTR_VALS_AFM, abstract=False))
 ATTR_VALS_UVL = [{'val': v, 'dom': '', 'nul': 'n'} for v in
-                 ['n', 'b:true', 'b:false', 'i:5', 'i:0', 'd:1.5', 's:txt', 's:two words', 'l:[i:1,i:2]', 'l:[s:x,d:2.5]',
-                  'm:{s:k=i:1}', 'm:{s:k=m:{s:j=s:v}}']]
+                 ['n', 'b:true', 'b:false', 'i:5', 'i:0', 'i:-5', 'd:1.5', 'd:0.1234567', 'd:-2.25', 's:txt', 's:two words', 's:true',
+                  'l:[i:1,i:2]', 'l:[s:x,d:2.5,i:-3]', 'm:{s:k=i:1}', 'm:{s:k=m:{s:j=s:v}}']]
 FAMILIES.update(fmt_families('uvl', ALL_OPS_NOT_XOR, ATTR_VALS_UVL, star=True, extra={
     'uvl-Type': {
         'quick':    dict(consts=dict(N=3, MaxKids=2, MinHi=1, Axes={'type'}, Types={'Integer', 'Real', 'String'}, Fmt='uvl'),
@@ -195,6 +203,12 @@ FAMILIES.update({
         'thorough': dict(consts=dict(N=3, MaxKids=2, MinHi=1, Axes={'ctc'}, MaxCtc=1, CtcDepth=1, CtcBinOps=LOGIC_BIN, CtcMinFeatures=2),
                          invariants=tlc.GEN_INVARIANTS, cap=1500),
     },
+    'C12-Ctc2': {   # two constraints carrying the same name
+        'quick':    dict(consts=dict(N=2, MaxKids=1, MinHi=1, Axes={'ctc'}, MaxCtc=2, CtcDepth=1, CtcBinOps={'IMPLIES', 'EXCLUDES'},
+                                     CtcMinFeatures=2, CtcSameName=True), invariants=tlc.GEN_INVARIANTS, cap=80),
+        'thorough': dict(consts=dict(N=2, MaxKids=1, MinHi=1, Axes={'ctc'}, MaxCtc=2, CtcDepth=1, CtcBinOps={'IMPLIES', 'EXCLUDES'},
+                                     CtcMinFeatures=2, CtcSameName=True), invariants=tlc.GEN_INVARIANTS, cap=600),
+    },
     'C12-Attr': {
         'quick':    dict(consts=dict(N=2, MaxKids=1, MinHi=1, Axes={'attr', 'abs'}, AttrNames=['a1'], AttrVals=ATTR_VALS_JSON[:6]),
                          invariants=tlc.GEN_INVARIANTS, cap=60),
@@ -219,6 +233,12 @@ FAMILIES.update({
                          invariants=tlc.GEN_INVARIANTS, cap=4000),
         'thorough': dict(consts=dict(N=2, MaxKids=1, MinHi=1, Axes={'ctc'}, MaxCtc=1, CtcDepth=2, CtcBinOps=LOGIC_BIN, CtcMinFeatures=2),
                          invariants=tlc.GEN_INVARIANTS),
+    },
+    'Deep-Ctc': {   # walks: one or two constraints grown to depth 3-4 over three or four features
+        'quick':    dict(consts=dict(N=4, MaxKids=3, MinHi=1, Axes={'ctc'}, MaxCtc=2, CtcDepth=1, CtcBinOps=LOGIC_BIN, CtcMinFeatures=3,
+                                     CtcGrow=2), invariants=tlc.GEN_INVARIANTS, simulate=dict(num=600, depth=10)),
+        'thorough': dict(consts=dict(N=4, MaxKids=3, MinHi=1, Axes={'ctc'}, MaxCtc=2, CtcDepth=1, CtcBinOps=LOGIC_BIN, CtcMinFeatures=3,
+                                     CtcGrow=2), invariants=tlc.GEN_INVARIANTS, simulate=dict(num=6000, depth=12)),
     },
     'Clafer-Attr': {
         'quick':    dict(consts=dict(N=2, MaxKids=1, MinHi=1, Axes={'attr'}, AttrNames=['a1', 'a2'],
